@@ -43,7 +43,7 @@ func runC08(p *core.Program, r *core.Report) {
 	for _, fn := range p.LibFuncs() {
 		nLoops += checkMapOrderIndependence(p, r, fn)
 	}
-	r.Floor("R8.1", "map-range loops in package spg", nLoops, 3)
+	r.Floor("R8.1", "map-range loops in package spg", nLoops, 1)
 
 	// R8.2
 	if c := resolveWLCtor(p, r, "R8.2"); c != nil {
@@ -74,6 +74,10 @@ func runC08(p *core.Program, r *core.Report) {
 
 // checkStoredCount applies R8.2.
 func checkStoredCount(p *core.Program, r *core.Report, c *wlCtor) {
+	checkStoredCountRule(p, r, c, "R8.2")
+}
+
+func checkStoredCountRule(p *core.Program, r *core.Report, c *wlCtor, rule string) {
 	name := core.FuncName(c.fn)
 	var cnt ssa.Value
 	cntField := ""
@@ -86,7 +90,7 @@ func checkStoredCount(p *core.Program, r *core.Report, c *wlCtor) {
 		}
 	}
 	if cnt == nil {
-		r.Unrecognised("R8.2", name, "count field", p.Pos(c.fn.Pos()), "no integer field is stored into the result")
+		r.Unrecognised(rule, name, "count field", p.Pos(c.fn.Pos()), "no integer field is stored into the result")
 		return
 	}
 	phi, ok := cnt.(*ssa.Phi)
@@ -99,7 +103,7 @@ func checkStoredCount(p *core.Program, r *core.Report, c *wlCtor) {
 		}
 	}
 	if loop == nil {
-		r.Fail("R8.2", name, "count "+cntField+" is accumulated over a loop", p.Pos(c.fn.Pos()), "stored value is "+core.Describe(cnt))
+		r.Fail(rule, name, "count "+cntField+" is accumulated over a loop", p.Pos(c.fn.Pos()), "stored value is "+core.Describe(cnt))
 		return
 	}
 	pos := p.InstrPos(phi)
@@ -107,9 +111,9 @@ func checkStoredCount(p *core.Program, r *core.Report, c *wlCtor) {
 	if !okR || ri.Kind != "map" {
 		// a range over the final words slice is equally fine
 		if okR && ri.Kind == "slice" {
-			r.Pass("R8.2", name, "count accumulated over the kept slice", pos, "")
+			r.Pass(rule, name, "count accumulated over the kept slice", pos, "")
 		} else {
-			r.Fail("R8.2", name, "count accumulated over the final key set", pos, "accumulating loop is not a range over the dedupe map / kept slice")
+			r.Fail(rule, name, "count accumulated over the final key set", pos, "accumulating loop is not a range over the dedupe map / kept slice")
 			return
 		}
 	}
@@ -127,7 +131,7 @@ func checkStoredCount(p *core.Program, r *core.Report, c *wlCtor) {
 				late = "insertion at " + p.InstrPos(u)
 			}
 		}
-		r.Check(late == "", "R8.2", name, "count is taken over the final key set (no mutation of the map reachable from the counting loop)", pos,
+		r.Check(late == "", rule, name, "count is taken over the final key set (no mutation of the map reachable from the counting loop)", pos,
 			"the map is still being modified ("+late+"): whether an entry is counted depends on iteration order")
 	}
 	// increments: phi edges inside the loop are phi or phi+1
@@ -162,9 +166,9 @@ func checkStoredCount(p *core.Program, r *core.Report, c *wlCtor) {
 				}
 			}
 		}
-		r.Check(okG, "R8.2", name, "a word is counted iff strings.Title(w) == w", p.InstrPos(bo), "the uncapitalisable count must count exactly the kept words equal to their own title form")
+		r.Check(okG, rule, name, "a word is counted iff strings.Title(w) == w", p.InstrPos(bo), "the uncapitalisable count must count exactly the kept words equal to their own title form")
 	}
-	r.Check(okInc, "R8.2", name, "count is phi(0, count+1)", pos, "")
+	r.Check(okInc, rule, name, "count is phi(0, count+1)", pos, "")
 }
 
 func isTitleOf(t, k ssa.Value) bool {
@@ -381,11 +385,11 @@ func checkWLEntropyLedger(p *core.Program, r *core.Report, rule string) {
 	} else {
 		r.Unrecognised(rule+"b", "entropySimple", "function", "", "not found")
 	}
-	if g := p.Method("WordList", "isAllCapitalizable"); g != nil {
+	if g := capitalisationGate(p); g != nil {
 		ok, why := isCountZeroPredicate(g)
 		r.Check(ok, rule+"b", core.FuncName(g), "capitalisation gate is (uncapitalisable count == 0)", p.Pos(g.Pos()), why)
 	} else {
-		r.Unrecognised(rule+"b", "isAllCapitalizable", "method", "", "gate predicate not found")
+		r.Unrecognised(rule+"b", "-", "capitalisation gate", "", "no bool predicate on WordList found")
 	}
 }
 
@@ -424,7 +428,7 @@ func describeGuards(p *core.Program, gs []core.Guard) (desc string, gate bool, s
 	for _, g := range gs {
 		// gate call
 		if c, ok := g.Cond.(*ssa.Call); ok {
-			if f := core.StaticCallee(c); f != nil && f == p.Method("WordList", "isAllCapitalizable") {
+			if f := core.StaticCallee(c); f != nil && f == capitalisationGate(p) {
 				if g.Pos {
 					gate = true
 					parts = append(parts, "allCapitalizable")
